@@ -48,6 +48,21 @@ NEEDED.update({
  "C18-A5": "the `implicit` bridge (ALS, BPR) among the components, and datasets of one shape (other users and items, the same numbers of both)",
  "C18-B5": "the first call's options object handed to `Pipeline.train` again",
 })
+NEEDED.update({
+ "C02-A6": "an inline literal string that spells the name (or an alias) of an existing node, given as an input value: it must stay a literal",
+ "C02-B6": "`replace_component` called with only some of the inputs given again — the others must be retained",
+ "C09-A6": "directed dense cases with a small neighbourhood limit (every rated item similar to the target, `max_nbrs` 1–3) on explicit feedback",
+ "C09-B6": "a neighbour whose similarity reaches the configured minimum exactly (directed user-user case with `min_sim` set to a similarity that occurs)",
+ "C12-A6": "queries whose test list is empty, with the test items as candidates",
+ "C13-A6": "components added as a class with no configuration object, and the written document compared with the settings of the built component",
+ "C14-B6": "a component of the caller's own that derives copies with the documented `ItemList(source, field=False)` / `scores=False` forms from a scored list",
+ "C15-A6": "date-times with a sub-microsecond part (interaction timestamps and a date-time item attribute), half of the generated datasets",
+ "C15-B6": "collections written with a `batch_size` smaller than the number of lists (several record batches)",
+ "C16-A6": "a copy with the ordering flag given (`ordered=False` of a list whose ranks were already asked for), then asked for its ranks",
+ "C16-B6": "Boolean masks and position selectors given as plain lists and tuples, not only as arrays",
+ "C17-A6": "entities registered in two or three batches whose later batches hold smaller identifiers, before attributes are attached",
+ "C19-A6": "a selector with a fixed integer seed called several times in a row (the calls continue one stream), with the scripted generator injected through the library's own RNG constructor",
+})
 SUF = sys.argv[1] if len(sys.argv) > 1 else "3"
 rows = []
 for d in sorted(glob.glob(os.path.join(ROOT, "seeded", "*" + SUF))):
